@@ -2,11 +2,14 @@ package main
 
 import (
 	"encoding/json"
+	"errors"
 	"fmt"
+	"io"
 	"os"
 	"runtime"
 	"strings"
 	"sync"
+	"syscall"
 	"time"
 )
 
@@ -22,7 +25,7 @@ type c14Scenario struct {
 }
 
 func runC14(h *H) {
-	h.Rule("2..8 sessions on one server with the in-memory backend, each running its own command list concurrently (no synchronisation between sessions) over mailboxes A, B, C pre-filled with messages: targeted scenarios (COPY and MOVE in opposite directions between two mailboxes, expunge during fetch, LIST/STATUS during RENAME/DELETE/CREATE, LIST/LSUB during SUBSCRIBE/UNSUBSCRIBE, IDLE ended while another session stores flags on more messages than the idle channel holds, ENVELOPE of a message and of its copies fetched concurrently (also a targeted run: a fresh message with a long header is copied, then its envelope is fetched in both mailboxes at the same moment), STORE during COPY) repeated many times, plus seeded random command mixes. Every command has a watchdog; a command that gets no tagged completion within the limit and a further grace period of 45 s is a stall (a deadlock never ends, a slow command does; mailboxes are re-created every 250 repetitions to keep them small): the histories of all sessions and a goroutine dump are the replay. With VERIF_RACE=1 the same run is executed by a -race build and race reports involving imapserver packages are violations. Non-trivial = at least two sessions ran a mutating command on a shared mailbox; distinct by scenario and seed.")
+	h.Rule("2..8 sessions on one server with the in-memory backend, each running its own command list concurrently (no synchronisation between sessions) over mailboxes A, B, C pre-filled with messages: targeted scenarios (COPY and MOVE in opposite directions between two mailboxes, expunge during fetch, LIST/STATUS during RENAME/DELETE/CREATE, LIST/LSUB during SUBSCRIBE/UNSUBSCRIBE, IDLE ended while another session stores flags on more messages than the idle channel holds, ENVELOPE of a message and of its copies fetched concurrently (also a targeted run: a fresh message with a long header is copied, then its envelope is fetched in both mailboxes at the same moment), STORE during COPY, several sessions removing the SAME messages of one mailbox at overlapping times: EXPUNGE / UID EXPUNGE / CLOSE in parallel on \\Deleted messages that a feeder session keeps appending to a mailbox of 150 messages which other sessions fetch; MOVE of messages that another session expunges or moves as well) repeated many times, plus seeded random command mixes. Every command has a watchdog; a command that gets no tagged completion within the limit and a further grace period of 45 s is a stall (a deadlock never ends, a slow command does; mailboxes are re-created every 250 repetitions to keep them small): the histories of all sessions and a goroutine dump are the replay. A command under which the server ends the connection (no tagged completion, EOF/reset) did not complete either (oracle no-completion), and a panic recovered by the server is reported with the library frames of its stack (oracle server-panic; once the server has logged a panic the grace period is 8 s). With VERIF_RACE=1 the same run is executed by a -race build and race reports involving imapserver packages are violations. Non-trivial = at least two sessions ran a mutating command on a shared mailbox; distinct by scenario and seed.")
 
 	var runScenario func(sc c14Scenario, src string)
 	runChunked := func(sc c14Scenario, src string) {
@@ -67,10 +70,13 @@ func runC14(h *H) {
 		var wg sync.WaitGroup
 		var mu sync.Mutex
 		stalled := ""
+		dropped := ""
+		panicked := func() bool { return strings.Contains(ms.log.String(), "panic") }
 		conns := make([]*memConn, len(sc.Sessions))
 		for i := range sc.Sessions {
 			conns[i] = ms.dial(i + 1)
 			conns[i].grace = 45 * time.Second // a deadlock never ends; a slow command does
+			conns[i].hurry = panicked         // ... unless the server has just recovered from a panic
 			conns[i].rc.cmd("LOGIN u p")
 		}
 		for i, cmds := range sc.Sessions {
@@ -90,7 +96,12 @@ func runC14(h *H) {
 						var err error
 						if strings.HasPrefix(line, "APPEND ") {
 							done := make(chan error, 1)
-							go func() { done <- mc.appendMsg(strings.Fields(line)[1], "", "appended") }()
+							// "APPEND <mailbox> [<flag>]"
+							f := append(strings.Fields(line), "")
+							mc.mu.Lock()
+							mc.hist = append(mc.hist, line)
+							mc.mu.Unlock()
+							go func() { done <- mc.appendMsg(f[1], f[2], "appended") }()
 							select {
 							case err = <-done:
 								if ne, ok := err.(interface{ Timeout() bool }); ok && ne.Timeout() {
@@ -114,6 +125,14 @@ func runC14(h *H) {
 							return
 						}
 						if err != nil {
+							// the connection ended under a command: that command never completes
+							if connEnded(err) {
+								mu.Lock()
+								if dropped == "" {
+									dropped = fmt.Sprintf("session %d: %q got no tagged completion, the server ended the connection (%v)", i+1, line, err)
+								}
+								mu.Unlock()
+							}
 							return
 						}
 					}
@@ -121,6 +140,21 @@ func runC14(h *H) {
 			}(i, cmds)
 		}
 		wg.Wait()
+		if panicked() {
+			desc["server_log"] = panicLines(ms.log.String())
+		}
+		if dropped != "" {
+			hist := map[string][]string{}
+			for i, c := range conns {
+				hh := c.history()
+				if len(hh) > 12 {
+					hh = hh[len(hh)-12:]
+				}
+				hist[fmt.Sprintf("session%d", i+1)] = hh
+			}
+			desc["last_commands"] = hist
+			h.Fail("no-completion:"+sc.Name, "a command never completes: "+dropped, desc)
+		}
 		if stalled != "" {
 			hist := map[string][]string{}
 			for i, c := range conns {
@@ -152,8 +186,8 @@ func runC14(h *H) {
 			desc["goroutines_blocked_on_mutex"] = blocked
 			h.Fail("stall:"+sc.Name, "commands block each other forever: "+stalled, desc)
 		}
-		if strings.Contains(ms.log.String(), "panic") {
-			h.Fail("server-panic", firstLine(ms.log.String()), desc)
+		if panicked() {
+			h.Fail("server-panic", strings.Join(panicLines(ms.log.String()), " | "), desc)
 		}
 		for _, c := range conns {
 			c.mu.Lock()
@@ -189,11 +223,19 @@ func runC14(h *H) {
 		// the race detector slows the run down several times
 		rep, nrand = rep/6, nrand/3
 	}
+	del3 := []string{`APPEND A \Deleted`, `APPEND A \Deleted`, `APPEND A \Deleted`}
 	scenarios := []c14Scenario{
 		{"copy-opposite", [][]string{{"SELECT A", "COPY 1:10 B"}, {"SELECT B", "COPY 1:10 A"}}, rep * 8, 0},
 		{"move-opposite", [][]string{{"SELECT A", "MOVE 1:2 B", "NOOP"}, {"SELECT B", "MOVE 1:2 A", "NOOP"}}, rep, 0},
 		{"copy-move-status", [][]string{{"SELECT A", "COPY 1:10 B"}, {"SELECT B", "MOVE 1 A"}, {"STATUS A (MESSAGES UNSEEN)", "STATUS B (MESSAGES)", `LIST "" *`}}, rep, 0},
 		{"expunge-during-fetch", [][]string{{"SELECT A", "FETCH 1:* (FLAGS BODY.PEEK[])"}, {"SELECT A", `STORE 1:* +FLAGS (\Deleted)`, "EXPUNGE", "APPEND A"}, {"SELECT A", "UID FETCH 1:* FLAGS", "NOOP"}}, rep, 0},
+		// several sessions remove the SAME messages of one mailbox at overlapping times (every removal
+		// collects its messages in one critical section and applies it in a later one): a feeder keeps
+		// appending \Deleted messages that all of EXPUNGE / UID EXPUNGE / CLOSE, running in parallel, pick up
+		{"expunge-same-batch", [][]string{del3, {"SELECT A", "EXPUNGE", "UID EXPUNGE 1:*", "EXPUNGE"}, {"SELECT A", "UID EXPUNGE 1:*", "EXPUNGE", "EXPUNGE"}, {"SELECT A", "EXPUNGE", "EXPUNGE", "EXPUNGE"}, {"SELECT A", "EXPUNGE", "CLOSE"}, {"SELECT A", "FETCH 1:* (UID FLAGS)", "FETCH 1:* (UID FLAGS)"}, {"SELECT A", "UID FETCH 1:* FLAGS", "FETCH 1:* (UID FLAGS)"}, {"SELECT A", "FETCH 1:* (UID FLAGS)", "NOOP"}}, rep / 2, 150},
+		// ... MOVE of messages that another session expunges (or also moves) while they are copied
+		{"move-vs-expunge", [][]string{{`APPEND A \Deleted`, `APPEND A \Deleted`, `APPEND B \Deleted`, `APPEND B \Deleted`}, {"SELECT A", "MOVE 1:* B"}, {"SELECT A", "EXPUNGE", "EXPUNGE"}, {"SELECT B", "UID MOVE 1:* A"}, {"SELECT B", "EXPUNGE", "EXPUNGE"}, {"SELECT A", "FETCH 1:* (UID FLAGS)"}}, rep / 2, 6},
+		{"move-same-messages", [][]string{{"APPEND A", "APPEND A", "APPEND B"}, {"SELECT A", "MOVE 1:4 B"}, {"SELECT A", "UID MOVE 1:* B"}, {"SELECT B", "MOVE 1:4 A"}, {"SELECT B", `STORE 1:* +FLAGS.SILENT (\Deleted)`, "CLOSE"}, {"SELECT A", `STORE 1:* +FLAGS.SILENT (\Deleted)`, "EXPUNGE"}}, rep / 2, 6},
 		{"list-during-rename", [][]string{{`LIST "" *`, `LIST "" % RETURN (STATUS (MESSAGES))`, "STATUS C (MESSAGES)"}, {"RENAME C D", "RENAME D C"}, {"CREATE X", "DELETE X"}, {"SELECT C", "FETCH 1 FLAGS", "UNSELECT"}}, rep, 0},
 		{"list-during-subscribe", [][]string{{`LIST "" *`, `LSUB "" *`, `LIST (SUBSCRIBED) "" *`}, {"SUBSCRIBE A", "UNSUBSCRIBE A", "SUBSCRIBE B"}, {"UNSUBSCRIBE B", "SUBSCRIBE C", `LIST "" % RETURN (SUBSCRIBED)`}}, rep, 0},
 		// an idling session ends its IDLE while another session queues a burst of more updates than
@@ -203,13 +245,20 @@ func runC14(h *H) {
 		{"envelope-of-copies", [][]string{{"APPEND A", "SELECT A", "COPY 1:* C", "FETCH 1:* (ENVELOPE)", "APPEND A", "MOVE * B"}, {"SELECT C", "FETCH 1:* (ENVELOPE BODYSTRUCTURE)", "SELECT B", "FETCH 1:* (ENVELOPE)"}, {"SELECT A", "FETCH 1:* (ENVELOPE)", "UID FETCH 1:* (ENVELOPE RFC822.SIZE)"}}, rep / 2, 3},
 		{"store-during-copy", [][]string{{"SELECT A", `STORE 1:* +FLAGS (\Seen)`, `STORE 1:* -FLAGS (\Seen)`}, {"SELECT A", "COPY 1:5 C"}, {"SELECT C", "SEARCH SEEN", "UID SEARCH ALL"}}, rep, 0},
 	}
+	// C14_ONLY=<substring of a scenario name>: run only these (for debugging a scenario)
+	only := func(name string) bool {
+		o := os.Getenv("C14_ONLY")
+		return o == "" || strings.Contains(name, o)
+	}
 	for _, sc := range scenarios {
-		runChunked(sc, "targeted")
+		if only(sc.Name) {
+			runChunked(sc, "targeted")
+		}
 	}
 	// targeted: a freshly appended message is copied to another mailbox, then its envelope is
 	// fetched in both mailboxes at the same moment (whatever a message and its copies share must
 	// not be written under two different mailbox locks)
-	{
+	if only("envelope-of-fresh-copy") {
 		ms := startMemServer([]string{"A", "C"}, false)
 		setup := ms.dial(0)
 		setup.rc.cmd("LOGIN u p")
@@ -265,7 +314,7 @@ func runC14(h *H) {
 			}
 		}
 		if strings.Contains(ms.log.String(), "panic") {
-			h.Fail("server-panic", firstLine(ms.log.String()), desc)
+			h.Fail("server-panic", strings.Join(panicLines(ms.log.String()), " | "), desc)
 		}
 		h.Eval("envelope-of-fresh-copy")
 		h.Hist("scenario:targeted")
@@ -278,7 +327,7 @@ func runC14(h *H) {
 	// random mixes
 	verbs := []string{"SELECT A", "SELECT B", "SELECT C", "EXAMINE A", "FETCH 1:* FLAGS", "UID FETCH 1:* (FLAGS)", "COPY 1:3 A", "COPY 1:3 B", "COPY 1 C",
 		"MOVE 1 A", "MOVE 1 B", "UID MOVE 1:2 C", `STORE 1:* +FLAGS (\Deleted)`, `STORE 1 -FLAGS (\Deleted)`, "EXPUNGE", "UID EXPUNGE 1:*", "NOOP", "CLOSE", "UNSELECT",
-		"STATUS A (MESSAGES)", "STATUS B (MESSAGES UIDNEXT)", `LIST "" *`, "APPEND A", "APPEND B", "SEARCH ALL", "UID SEARCH DELETED",
+		"STATUS A (MESSAGES)", "STATUS B (MESSAGES UIDNEXT)", `LIST "" *`, "APPEND A", "APPEND B", `APPEND A \Deleted`, `APPEND B \Deleted`, "MOVE 1:* A", "UID MOVE 1:* B", "SEARCH ALL", "UID SEARCH DELETED",
 		"SUBSCRIBE A", "UNSUBSCRIBE A", `LSUB "" *`}
 	for i := 0; i < nrand; i++ {
 		sc := c14Scenario{Name: fmt.Sprintf("random-%d", i), Repeat: h.Pick(10, 30)}
@@ -289,6 +338,47 @@ func runC14(h *H) {
 			}
 			sc.Sessions = append(sc.Sessions, cmds)
 		}
-		runChunked(sc, "random")
+		if only(sc.Name) {
+			runChunked(sc, "random")
+		}
 	}
+}
+
+// connEnded: the error of a command means that the peer closed (or reset) the connection, as
+// opposed to a read deadline or a refusal.
+func connEnded(err error) bool {
+	if err == nil {
+		return false
+	}
+	if errors.Is(err, io.EOF) || errors.Is(err, io.ErrUnexpectedEOF) || errors.Is(err, syscall.ECONNRESET) || errors.Is(err, syscall.EPIPE) {
+		return true
+	}
+	return false
+}
+
+// panicLines returns the lines of a server log that report a recovered panic, each followed by
+// the first frames of the library in its stack trace.
+func panicLines(log string) []string {
+	var out []string
+	lines := strings.Split(log, "\n")
+	for i, l := range lines {
+		if !strings.Contains(l, "panic") || strings.HasPrefix(l, "\t") || strings.HasPrefix(l, "panic(") {
+			continue
+		}
+		frames := 0
+		for _, m := range lines[i+1:] {
+			if strings.Contains(m, "panic handling command") {
+				break
+			}
+			if strings.HasPrefix(m, "github.com/emersion/go-imap/v2/imapserver/imapmemserver.") && frames < 3 {
+				l += " <- " + strings.TrimPrefix(m, "github.com/emersion/go-imap/v2/imapserver/")
+				frames++
+			}
+		}
+		out = append(out, l)
+		if len(out) == 4 {
+			break
+		}
+	}
+	return out
 }
